@@ -122,3 +122,40 @@ def _walk_no_calls(t):
             for y in x:
                 if isinstance(y, tuple) and y and isinstance(y[0], str):
                     yield from _walk_no_calls(y)
+
+
+_callers_cache = {}
+
+
+def callers(prog):
+    """{stripped callee path: {stripped caller root path}} over crate-local calls"""
+    k = id(prog)
+    if k not in _callers_cache:
+        out = {}
+        for p_ in prog._bodies_raw:
+            b = prog.body(p_)
+            if b is None:
+                continue
+            f = prog.fns.get(p_, {})
+            root = f.get("root") or p_
+            for _, t in b.calls():
+                for tgt in (t.get("resolved"), t.get("callee")):
+                    if tgt in prog._bodies_raw:
+                        out.setdefault(mir.strip_generics(tgt), set()).add(mir.strip_generics(root))
+        _callers_cache.clear()
+        _callers_cache[k] = out
+    return _callers_cache[k]
+
+
+def owner_ok(prog, owner, roots, seen=()):
+    """`owner` is one of the allowed writers `roots`, or a non-public helper all of whose callers are allowed writers
+    (so extracting part of an allowed writer into a private function, or a closure inside it, changes nothing)"""
+    if owner in roots:
+        return True
+    if owner in seen:
+        return False
+    fs = [f for f in prog.fn_list if mir.strip_generics(f["path"]) == owner]
+    if not fs or any(f.get("vis") == "pub" for f in fs):
+        return False
+    cs = callers(prog).get(owner, set())
+    return bool(cs) and all(owner_ok(prog, c, roots, seen + (owner,)) for c in cs)
